@@ -916,6 +916,11 @@ struct Driver
                 const Vec& src = V(op.a[1]);
                 V(v)[static_cast<std::size_t>(op.a[0])] = src[static_cast<std::size_t>(op.a[2])];
             }
+            else if (op.n == "RefAssignLv")
+            {
+                typename Vec::reference named = V(op.a[1])[static_cast<std::size_t>(op.a[2])];
+                V(v)[static_cast<std::size_t>(op.a[0])] = named;
+            }
             else if (op.n == "RefMoveAssign")
             {
                 V(v)[static_cast<std::size_t>(op.a[0])] = V(op.a[1])[static_cast<std::size_t>(op.a[2])];
@@ -977,6 +982,12 @@ struct Driver
                 new (estore[v]) Elem(c[static_cast<std::size_t>(op.a[1])], VAlloc(op.a[2]));
                 estate[v] = 1;
             }
+            else if (op.n == "ElemFromLvRef")
+            {
+                typename Vec::reference named = V(op.a[0])[static_cast<std::size_t>(op.a[1])];
+                new (estore[v]) Elem(named, VAlloc(op.a[2]));
+                estate[v] = 1;
+            }
             else if (op.n == "ElemFromRvRef")
             {
                 new (estore[v]) Elem(V(op.a[0])[static_cast<std::size_t>(op.a[1])], VAlloc(op.a[2]));
@@ -1035,6 +1046,11 @@ struct Driver
             {
                 const Vec& c = V(op.a[0]);
                 E(v) = c[static_cast<std::size_t>(op.a[1])];
+            }
+            else if (op.n == "ElemAssignFromLvRef")
+            {
+                typename Vec::reference named = V(op.a[0])[static_cast<std::size_t>(op.a[1])];
+                E(v) = named;
             }
             else if (op.n == "ElemAssignFromRvRef")
             {
